@@ -111,6 +111,39 @@ func c15(c *core.Ctx) {
 							fresh, how = true, "atomic add result"
 						}
 					}
+					// a helper of the package all of whose returns are the result of an atomic add of a
+					// positive constant on the counter (`func (g *guard) nextID() int64`)
+					if t := p.ByObj[core.Callee(info, e)]; t != nil && t.Decl.Body != nil && !fresh {
+						ti := t.Info()
+						var adds []ast.Node
+						for _, a2 := range core.Accesses(ti, t.Decl.Body, map[*types.Var]bool{counter: true}, false) {
+							if a2.Write && a2.Form == "add+" {
+								adds = append(adds, a2.Node)
+							}
+						}
+						nRet, okRet := 0, true
+						ast.Inspect(t.Decl.Body, func(x ast.Node) bool {
+							if r, isRet := x.(*ast.ReturnStmt); isRet {
+								nRet++
+								good := false
+								if len(r.Results) == 1 {
+									for _, ad := range adds {
+										if ast.Node(core.Unparen(r.Results[0])) == ad {
+											good = true
+										}
+									}
+								}
+								if !good {
+									okRet = false
+								}
+							}
+							return true
+						})
+						if nRet > 0 && okRet {
+							fresh, how = true, "result of the ID helper "+t.Obj.Name()+" (atomic add)"
+							c.Touch(t)
+						}
+					}
 				case *ast.SelectorExpr:
 					// plain read of the counter: needs a dominating increment statement, and no other append between it and this one
 					if core.FieldOf(info, e) == counter {
